@@ -108,6 +108,11 @@ type Interp struct {
 	known map[*Term]bool
 	opaqueBuilders map[*Value]bool
 	race *raceState
+	ecst *ecState
+	hashApps []*Term
+	hashConc []hashConcRec
+	hashConcDone map[string]bool
+	hashInjDone int
 	curFn *ssa.Function
 	ivals map[*Term]ival
 	masks map[*Term]*big.Int
